@@ -31,7 +31,7 @@ OWNER = {
     "C10": {"CachedCoherent", "InitialPopulation"},
     "C11": {"ResumeDeterministic"},
     "C12": {"CadenceExact", "CadenceExact_final", "FileHoldsLatest", "FileHoldsLatest_payload_pop",
-            "Loadable", "ConfigAndFlowFirst", "ResumeFromFileWorks"},
+            "Loadable", "ConfigAndFlowFirst", "FlowIsCurrent", "ResumeFromFileWorks"},
     "C15": {"PrecisionKept"},
     "C17": {"PriorBeforeLikelihood", "CountExact"},
     "C18": {"HistoryFaithful_lengths", "HistoryFaithful_betas", "HistoryFaithful_populations",
@@ -628,6 +628,10 @@ def corpus_file(tier, seed, rnd):
         if rnd.random() < 0.4:
             c["n_final"] = c["N"] * 2
         cfgs.append(c)
+    # an earlier fit + run and a refit inside the same auto_checkpoint context precede the measured run
+    for j, c in enumerate(list(cfgs)):
+        if j % 2 == 0 and c.get("every") is not None:
+            cfgs.append(dict(c, ctx="refit", seed=c["seed"] + 1000))
     for c in cfgs:
         specs.append(_mk(k, "aspire_single", {"cfg": c})); k += 1
         wd = workdir("probe")
@@ -1151,7 +1155,10 @@ CHECKS = {
     "C11": dict(corpus=corpus_resume, e1=[e1_smcrun]),
     "C12": dict(corpus=lambda t, s, r: corpus_file(t, s, r) + [dict(x, id="r" + x["id"]) for x in corpus_resume(t, s, r)][: (150 if t == "quick" else 3000)],
                 e1=[e1_smcrun], extra=e3_blob),
-    "C17": dict(corpus=lambda t, s, r: corpus_general(t, s, r) + corpus_calls(t, s, r), e1=[e1_smcrun],
+    "C17": dict(corpus=lambda t, s, r: corpus_general(t, s, r) + corpus_calls(t, s, r)
+                # runs left through an exception raised in a user call, and their resumed continuations
+                + [dict(x, id="r" + x["id"]) for x in corpus_resume(t, s, r)][: (80 if t == "quick" else 2000)],
+                e1=[e1_smcrun],
                 extra=lambda v, t, s: __import__("e3_initialdraw").replay(v, t, s, "C17")),
     "C20": dict(corpus=corpus_c20, e1=[], extra=e3_routing),
     "C18": dict(corpus=lambda t, s, r: corpus_general(t, s, r, 200 if t == "quick" else 3000)
